@@ -47,6 +47,8 @@ def values_for(m, thorough):
             frozenset({1, 2}), (float('nan'),), 'x' * 5 + '\r' + 'y' * 5, ('a' * (m + 1),), [b'\r\n' * (m // 2 + 1)]]
     for n in (0, 1, 100, max(0, m - 1), m, m + 1):
         out.append(Stream(bytes((i * 7) % 256 for i in range(n))))
+    for n, burst in ((100, 7), (1000, 64), (m + 5, 1)):
+        out.append(Stream(bytes((i * 11) % 256 for i in range(n)), burst=burst))     # short-reading raw streams
     if thorough and m == BIG:
         for n in (2 ** 22 - 1, 2 ** 22, 2 ** 22 + 1):
             out.append(Stream(b'\xab' * n))
@@ -272,6 +274,55 @@ def correspondence(ctx, res, coqcases, limit_big):
     res.extra['model_cases'] = len(checks)
 
 
+def faulted_writes(ctx, res, stats):
+    """one transient OSError at the k-th write()/close() of a value file: the store must either raise and
+    leave the key absent, or succeed and give the identical value back"""
+    import sched
+    vals = [b'B' * 3000 + b'\n' + b'C' * 3000 + b'\n' + b'tail', 'line one\n' * 300 + 'end', {'k': ['v' * 50] * 40},
+            Stream(bytes(range(256)) * 40)]
+    for vi, v in enumerate(vals):
+        for k in range(1, 5):
+            d = ctx.scratch('c01f')
+            cache = diskcache.Cache(d, disk_min_file_size=64)
+            counter = {'n': 0, 'fired': False}
+
+            def before(ev, k=k, counter=counter):
+                if ev.kind == 'file' and ev.what in ('write', 'close') and not counter['fired']:
+                    counter['n'] += 1
+                    if counter['n'] == k:
+                        counter['fired'] = True
+                        raise OSError('injected transient fault')
+            tr = sched.Tracer(before=before)
+            raised = False
+            with tr:
+                tr.enable(True)
+                try:
+                    if isinstance(v, Stream):
+                        cache.set('k', v.open(), read=True)
+                    else:
+                        cache.set('k', v)
+                except OSError:
+                    raised = True
+                tr.enable(False)
+            want = v.data if isinstance(v, Stream) else v
+            stats['faulted_writes'] = stats.get('faulted_writes', 0) + 1
+            res.count(['faultwrite', vi, k, raised], nontrivial=counter['fired'])
+            try:
+                if raised:
+                    if 'k' in cache:
+                        res.violations.append(fw.Violation('rejected_but_stored', 'a store that raised left the key present',
+                                                           {'check': 'faulted_write', 'value': short(v), 'fault_at': k}))
+                else:
+                    got = cache.get('k')
+                    if not same(got, want):
+                        res.violations.append(fw.Violation('altered_after_write_fault', 'a transient write error was swallowed and the value came back as %s' % short(got),
+                                                           {'check': 'faulted_write', 'value': short(v), 'fault_at': k}))
+            except Exception as e:
+                res.violations.append(fw.Violation('altered_after_write_fault', 'lookup after a faulted store raised %r' % e,
+                                                   {'check': 'faulted_write', 'value': short(v), 'fault_at': k}))
+            cache.close()
+
+
 def witnesses(res):
     """Replay the witnesses of the findings listed for C01 on the implementation."""
     import tempfile, shutil
@@ -327,7 +378,8 @@ def run(ctx, big_budget=False):
         cache.close()
         dq.cache.close()
         ix.cache.close()
-    res.extra.update({'rejected_by_exception': stats['rejected'], 'value_kinds': stats['kinds'],
+    faulted_writes(ctx, res, stats)
+    res.extra.update({'faulted_write_cases': stats.get('faulted_writes', 0), 'rejected_by_exception': stats['rejected'], 'value_kinds': stats['kinds'],
                       'file_backed_cases': stats['file_backed'], 'accessor_calls': stats['accessor_calls']})
     witnesses(res)
     return res
